@@ -40,7 +40,8 @@ func (c19) Meta() fw.Meta {
 			"timestamps: the 20-character layout with each field at min/max/overflow, pre-1970 and post-2106 dates, lower-case z, offsets. Oracle: accepted => value equals the independently computed arithmetic meaning (big integers / days-from-civil) and fits the type; " +
 			"must-reject classes (empty, no/unknown/doubled unit, sign, retention not a multiple of its step, meaning > 2^31-1, instants outside [0,2^32)) must be rejected. " +
 			"non-trivial = shard containing accepted and rejected strings and at least 1000 round trips; distinct by shard." +
-			" The CLI sample also runs view and sum against a recording stub server and parses from/until/now/retention back out of the request.",
+			" The CLI sample also runs view and sum against a recording stub server and parses from/until/now/retention back out of the request." +
+			" Half of the cases run with the process-local time zone nine hours east or eight hours west of UTC; the CLI sample gives every option twice and expects the meaning of the last value.",
 		Assumptions: []string{
 			"strings in neither class (redundant leading zeros; fractional seconds, which the Go time parser accepts after the seconds field) are not judged for acceptance, only for the returned value when accepted",
 			"CLI flag value types are unexported; they are sampled through the real binary (printed method names, retention lists and timestamps must be accepted with their meaning, malformed/out-of-range ones rejected) and exercised further by C12/C16",
